@@ -231,6 +231,8 @@ def lean_check(ctx, module, prefix):
         if not line.strip():
             continue
         r = json.loads(line)
+        if r["theorem"] in ctx.obligations:
+            continue          # already audited through another module that imports it
         ctx.obligations.append(r["theorem"])
         bad = [a for a in r["axioms"] if a not in ALLOWED_AXIOMS]
         if bad:
